@@ -43,6 +43,49 @@ NEEDS={
  "C20A":("write_mapped bounds test checks where a chunk starts instead of where it ends","declared size 1..1 MiB and a single write straddling it: out-of-range slice panic"),
  "C20B":("bucket readers skip every line read error","bucket path is a directory / persistent EIO: lookups spin forever"),
 }
+
+NEEDS.update({
+ "C01C":("sync copy remembers (len, mtime) of content it verified and skips the check on a match","same process: a successful checked copy, then damage that keeps size and mtime, then a second checked copy"),
+ "C01D":("async read of buffers > 1 MiB verifies on the blocking pool and discards the result","async read/read_hash of a damaged content file still larger than 1 MiB"),
+ "C02C":("write_mapped bounds check off by one; fallback set_len(pos) instead of seeking","declared size 1..1 MiB and two or more chunks through open_sync/open_hash_sync/async open_hash"),
+ "C02D":("find()/find_async() skip bucket lines lacking the raw key text","keys containing a quote, backslash or control character"),
+ "C03D":("AsyncWriter::close renames to the content address before the preallocated tail is truncated","async by-address writer, declared size larger than written, a kill (or ftruncate failure) between rename and truncate"),
+ "C04C":("sync index insert compacts a bucket > 4096 bytes by rewriting it in place (O_TRUNC)","overwrite of a key whose bucket is that large, killed between the truncate and the end of the write"),
+ "C04D":("sync bucket parser uses split_at(64)","an index append torn after 2..64 bytes: every sync lookup of the key panics"),
+ "C05C":("both bucket readers skip lines longer than 16 KiB","a successful write with ~4.5 KiB of raw metadata or large JSON metadata: the older entry resurfaces"),
+ "C05D":("remove_fully returns Ok early when the content file is already gone, before the bucket is removed","remove_fully of a key whose content was removed earlier (shared content / remove_hash): key still found"),
+ "C06C":("index checksum compared as decoded bytes (accepts upper-case hex)","a bit-5 flip of a hex letter in a record's checksum leaves the damaged record effective"),
+ "C06D":("sync bucket reader treats the end of BufReader's buffered slice as end of line","an undamaged record straddling an 8192-byte offset"),
+ "C07C":("insert_async opens with write(true) and seeks to the end instead of append(true)","two async writers of one key both seek before either writes: a record is overwritten"),
+ "C07D":("remove_hash also removes the emptied shard directories","writer of the same content: mkdir -p, then the remover's unlink+rmdir, then the writer's rename fails with ENOENT"),
+ "C08C":("async commit skips the size check whenever an integrity is declared","async writer declaring a correct integrity and a wrong size: commit Ok"),
+ "C08D":("WriteOpts::size drops a declared size of 0","declared size 0 with at least one byte written: Ok instead of SizeMismatch(0, n)"),
+ "C09C":("sync remove_hash runs remove_dir_all on the shard directory when it holds exactly one entry","removing an absent address whose shard directory holds one other content file (digests share 4 hex digits)"),
+ "C09D":("async remove_fully returns Ok early on missing content, bucket never deleted","content already gone (two keys sharing it, or remove_hash first), async flavour"),
+ "C10C":("remove_fully renames the bucket to <bucket>.rm inside index-v5 before deleting the content","a full removal whose content deletion fails strands that file: listing shows a key lookup cannot find"),
+ "C11D":("sync streaming writer fixes the default timestamp at open, not at commit","SyncWriter without explicit time and the wall clock moving between open and commit"),
+ "C12C":("SyncWriter::commit records the computed integrity instead of the declared multi-hash one","keyed sync write declaring two or more hashes: index record and later reads differ from the async flavours"),
+ "C13C":("sync bucket reader skips every line read error","a read(2) of the bucket that keeps failing: the lookup never returns"),
+ "C13D":("insert_async no longer flushes after write_all","the write(2) of the async index append fails: write() returns Ok while the key keeps its old value"),
+ "C14C":("finish_mapped no longer truncates the preallocated tail","declared size, fewer bytes, rejected commit, while the written bytes equal content another key holds"),
+ "C14D":("async rejected commit tombstones its key","the key already held a committed value: it disappears after the rejected commit"),
+ "C15C":("async writers fall back to the system temp dir when the temp file cannot be created under <cache>/tmp","that one open failing after the mkdir succeeded (fault injection, concurrent clear)"),
+ "C15D":("sync bucket reader rewrites (compacts) a bucket holding more than 64 entries","the same key written 65+ times, then a sync read-only call"),
+ "C16B":("write_sync_with_algo dedup shortcut looks up Integrity::from(data) (always sha256)","same bytes already stored under sha256, re-written through this entry point with another algorithm"),
+ "C16C":("AsyncWriter::close unlinks the existing content file before persisting the new one","an async re-write of equal data with a reader or a crash in the gap"),
+ "C16D":("write_mapped overflow seeks to End(0) instead of Start(pos)","declared size below the data length with an unaligned crossing chunk: stored copy overwritten with padded bytes"),
+ "C17C":("sync find() picks the record with the greatest time instead of the last appended","a later-appended record carrying an earlier time (explicit time, removal after a future-stamped write)"),
+ "C17D":("bucket_entries_async reads 8 KiB chunks and decodes each lossily","async lookup of a bucket > 8 KiB with a non-ASCII character straddling a chunk boundary"),
+ "C18C":("async checked copy verifies while streaming; on failure removes the destination only if it did not exist before","async copy of damaged content onto an existing destination: damaged bytes left there"),
+ "C18D":("checked hard link remembers (size, mtime) of verified content and skips re-hashing","same process: link, damage preserving size+mtime, link again"),
+ "C19C":("create_symlink tolerates any AlreadyExists instead of checking that the path resolves","link F1, delete F1 (dangling), link F2 with the same bytes: Ok but reads fail"),
+ "C19D":("link commit removes the symlink before returning a size/integrity mismatch","content already linked under another key, second link with a wrong declaration: the first entry stops reading"),
+ "C20C":("AsyncWriter::close retries forever on NotFound","the writer's temp file disappears between open and commit (open, write, clear, commit): commit hangs"),
+ "C20D":("read_sync pre-allocates its buffer from the size recorded in the index","raw index insert with a size above isize::MAX, then read_sync: capacity overflow panic"),
+ "F8":("re-introduces repaired defect F8: the sync bucket reader treats a failing read as end of file","one EIO on a read of a bucket: stale or partial results returned as success"),
+ "H1":("hand-written must-catch of DESIGN section 3: content copied straight onto the content path instead of renamed","any write: the content path is visible before it holds the data"),
+})
+
 rows=[]
 for d in sorted(glob.glob(V+'/seeded/C*/')):
     name=os.path.basename(d.rstrip('/'))
